@@ -289,6 +289,26 @@ pub fn directed() -> Vec<Input> {
     add("indented include", "  #include \"c16_inc_plain.h\"\nvoid main() { inc_a = 1; }\n");
     add("block comment opened on a define line", "#define X 1 /* start\n end */ + 2\nchar a;\nvoid main() { a = X; }\n");
     add("nested call overwriting parameters", "char r;\nchar f(char a, char b) { return a - b; }\nvoid main() { r = f(9, f(5, 1)); }\n");
+    add("undef in the second block of a hundred macros", &{
+        let mut t = String::new();
+        for k in 0..=100 {
+            t.push_str(&format!("#define M{} {}\n", k, k));
+        }
+        t.push_str("#undef M100\n#undef M3\nchar x;\nvoid main() { x = M3; }\n");
+        t
+    });
+    add("undef of the last of two hundred and one macros then use of the others", &{
+        let mut t = String::new();
+        for k in 0..=200 {
+            t.push_str(&format!("#define M{} {}\n", k, k % 100));
+        }
+        t.push_str("#undef M200\n#undef M150\n#undef M99\nchar x;\nvoid main() { x = M3 + M101 + M199; }\n");
+        t
+    });
+    add("compound shift of a 16-bit array element", "short a[4];\nvoid main() { a[Y] <<= 1; a[Y] >>= 1; a[X] <<= 1; a[1] >>= 2; }\n");
+    add("inline function with a sign extension", "signed char c; short s;\ninline void f() { s = c; }\nvoid main() { f(); f(); }\n");
+    add("inline function with a signed comparison", "signed char c, d; char r;\ninline void f() { if (c < d) r = 1; if (c <= d) r = 2; if (c > 0) r = 3; }\nvoid main() { f(); }\n");
+    add("inline function with every kind of branch", "signed char c; unsigned char u, r; short s;\ninline char f(char v) { if (u < v) r = 1; if (u >= v) r = 2; if (c < 0) r = 3; if (c >= 0) r = 4; if (s == 1) r = 5; while (u) u--; return r; }\nvoid main() { r = f(3); }\n");
     add("conditional continue in switch without loop", "char a, c;\nvoid main() { switch (a) { case 1: if (c) continue; } }\n");
     add("conditional break in switch without loop", "char a, c;\nvoid main() { switch (a) { case 1: if (c) break; a = 2; } }\n");
     add("conditional continue in nested switch in loop", "char a, c;\nvoid main() { while (a) { switch (a) { case 1: switch (c) { case 2: if (c) continue; } } a--; } }\n");
@@ -451,11 +471,33 @@ pub fn judge(inp: &Input) -> CaseOutcome {
 pub struct C16 {
     q: OnceLock<Vec<Input>>,
     t: OnceLock<Vec<Input>>,
+    cq: OnceLock<Vec<crate::corpus::CaseSpec>>,
+    ct: OnceLock<Vec<crate::corpus::CaseSpec>>,
 }
 
 impl C16 {
     pub fn new() -> C16 {
-        C16 { q: OnceLock::new(), t: OnceLock::new() }
+        C16 { q: OnceLock::new(), t: OnceLock::new(), cq: OnceLock::new(), ct: OnceLock::new() }
+    }
+    /// the valid programs of the shared executable corpus: compiling them must not crash either
+    fn corpus(&self, tier: Tier) -> &Vec<crate::corpus::CaseSpec> {
+        match tier {
+            Tier::Quick => self.cq.get_or_init(|| crate::corpus::exec_cases(tier)),
+            Tier::Thorough => self.ct.get_or_init(|| crate::corpus::exec_cases(tier)),
+        }
+    }
+    fn corpus_input(&self, tier: Tier, k: usize) -> Input {
+        let case = self.corpus(tier)[k].build();
+        let mut opts: Vec<&'static str> = vec![if k % 2 == 0 { "-O1" } else { "-O0" }];
+        for o in &case.extra_opts {
+            opts.push(match o.as_str() {
+                "-D__3E__" => "-D__3E__",
+                "-D__3E_PLUS__" => "-D__3E_PLUS__",
+                "--fsigned_char" => "--fsigned_char",
+                _ => "-v",
+            });
+        }
+        Input { family: "exec-corpus", name: case.family.clone(), src: case.source().into_bytes(), opts }
     }
     fn inp(&self, tier: Tier) -> &Vec<Input> {
         match tier {
@@ -473,22 +515,31 @@ impl Check for C16 {
         "fault_enumeration"
     }
     fn rule(&self) -> String {
-        "Inputs: (i) every single-token mutation of a corpus of 30 small valid programs covering all statement kinds and preprocessor lines: delete, duplicate, swap with neighbour, replace by each token of a 40-token alphabet (keywords, operators, brackets, out-of-range literals, @0@), and every truncation at a token boundary; (ii) ~250 directed inputs from the property's list (empty file, out-of-range literals in every radix and position, --1, constant /0, void values used, undeclared and prototype-only names, *= /=, infix ~ !, unbalanced directives, self- and mutually-referential macros, nesting depth 10..10000, non-UTF-8, NUL). Each runs in a worker process under catch_unwind with a per-input watchdog and RLIMIT_AS; aborts and hangs are attributed through a progress file and confirmed by a solo re-run. Oracle: compile() returns Ok or Err; a Syntax/Compiler error names in.c and a line inside the input; no panic, abort, stack overflow or time-out. Failures are keyed by panic location (file:line), so a new panic site is a new violation. Non-trivial = input rejected or crashing; distinct outcomes = distinct (error kind, message prefix).".into()
+        "Inputs: (i) every single-token mutation of a corpus of 30 small valid programs covering all statement kinds and preprocessor lines: delete, duplicate, swap with neighbour, replace by each token of a 40-token alphabet (keywords, operators, brackets, out-of-range literals, @0@), and every truncation at a token boundary; (ii) ~250 directed inputs from the property's list (empty file, out-of-range literals in every radix and position, --1, constant /0, void values used, undeclared and prototype-only names, *= /=, infix ~ !, unbalanced directives, self- and mutually-referential macros, nesting depth 10..10000, non-UTF-8, NUL); (iii) every valid program of the shared executable corpus (compile only). Each runs in a worker process under catch_unwind with a per-input watchdog and RLIMIT_AS; aborts and hangs are attributed through a progress file and confirmed by a solo re-run. Oracle: compile() returns Ok or Err; a Syntax/Compiler error names in.c and a line inside the input; no panic, abort, stack overflow or time-out. Failures are keyed by panic location (file:line), so a new panic site is a new violation. Non-trivial = input rejected or crashing; distinct outcomes = distinct (error kind, message prefix).".into()
     }
     fn assumptions(&self) -> Vec<String> {
         vec!["mutation distance 1 from the corpus; directed inputs as listed".into(), "time-out 10 s per input (compile() of these inputs normally takes < 1 ms)".into()]
     }
     fn n_cases(&self, tier: Tier) -> usize {
-        self.inp(tier).len()
+        self.inp(tier).len() + self.corpus(tier).len()
     }
     fn case_timeout_s(&self) -> u64 {
         10
     }
     fn case_ident(&self, tier: Tier, idx: usize) -> String {
+        let n = self.inp(tier).len();
+        if idx >= n {
+            let i = self.corpus_input(tier, idx - n);
+            return format!("C16|{}|{}|{}", i.family, i.opts.join(" "), String::from_utf8_lossy(&i.src));
+        }
         let i = &self.inp(tier)[idx];
         format!("C16|{}|{}|{}", i.family, i.opts.join(" "), String::from_utf8_lossy(&i.src))
     }
     fn run_case(&self, tier: Tier, idx: usize) -> CaseOutcome {
+        let n = self.inp(tier).len();
+        if idx >= n {
+            return judge(&self.corpus_input(tier, idx - n));
+        }
         judge(&self.inp(tier)[idx])
     }
     fn bounds(&self, tier: Tier) -> Value {
@@ -496,6 +547,6 @@ impl Check for C16 {
         for c in self.inp(tier) {
             *fam.entry(c.family).or_insert(0u64) += 1;
         }
-        json!({"families": fam, "corpus_programs": if tier == Tier::Quick { 10 } else { 30 }, "replacement_alphabet": if tier == Tier::Quick { 14 } else { 40 }})
+        json!({"families": fam, "valid_programs_of_the_executable_corpus": self.corpus(tier).len(), "corpus_programs": if tier == Tier::Quick { 10 } else { 30 }, "replacement_alphabet": if tier == Tier::Quick { 14 } else { 40 }})
     }
 }
